@@ -31,6 +31,23 @@ func (p *precref) peek() int {
 func (p *precref) primary() (string, bool) {
 	t := p.peek()
 	switch {
+	case t == 0 && p.t.Unary > 0:
+		// prefix operator sharing the first binary operator's token: its operand
+		// extends over binary operators that bind tighter (or equally, if @right)
+		p.pos++
+		lvl, assoc := p.t.UnaryLevel, p.t.UnaryAssoc
+		if p.allLeft != nil && p.allLeft[lvl] {
+			assoc = gen.Left
+		}
+		next := lvl + 1
+		if assoc == gen.Right {
+			next = lvl
+		}
+		e, ok := p.expr(next)
+		if !ok {
+			return "", false
+		}
+		return "(NEG " + e + ")", true
 	case t == p.t.Atom:
 		p.pos++
 		return fmt.Sprintf("A%d", p.pos-1), true
@@ -106,6 +123,8 @@ func implTree(t *gen.OpTable, b *px.Built, x any) string {
 	case *ctypes.Node:
 		terms := b.ProdTerms[v.Prod]
 		switch {
+		case len(terms) == 2: // prefix operator
+			return "(NEG " + implTree(t, b, v.Kids[1]) + ")"
 		case len(terms) == 1: // atom
 			tok := v.Kids[0].(ctypes.Token)
 			return fmt.Sprintf("A%d", tok.Idx)
@@ -145,6 +164,41 @@ func c05Inputs(t *gen.OpTable, maxOps, maxParenOps int, f func(w []int)) {
 		}
 	}
 	rec([]int{t.Atom}, 0)
+	if t.Unary > 0 {
+		// every chain with <= maxOps-1 operators and a prefix operator before any subset of <= 2 operands
+		var recU func(w []int, n int)
+		recU = func(w []int, n int) {
+			operands := 0
+			for _, x := range w {
+				if x == t.Atom {
+					operands++
+				}
+			}
+			for a := 0; a < operands; a++ {
+				for b := a; b < operands; b++ {
+					var v []int
+					k := 0
+					for _, x := range w {
+						if x == t.Atom {
+							if k == a || k == b {
+								v = append(v, 0)
+							}
+							k++
+						}
+						v = append(v, x)
+					}
+					f(v)
+				}
+			}
+			if n == maxOps-1 {
+				return
+			}
+			for op := 0; op < t.NumOps; op++ {
+				recU(append(append(w[:len(w):len(w)], op), t.Atom), n+1)
+			}
+		}
+		recU([]int{t.Atom}, 0)
+	}
 	if t.Extras == 0 {
 		return
 	}
